@@ -72,6 +72,7 @@ type WOpOut struct {
 	Asked     int     `json:"asked"`
 	Panic     string  `json:"panic,omitempty"`
 	SinkCalls int     `json:"sink_calls"`
+	SrcFault  bool    `json:"src_fault,omitempty"` // the ReadFrom source failed during this call
 }
 
 // WOut is the outcome of a Writer client.
@@ -351,9 +352,10 @@ func (x *run) runWriter(idx int, cs *ClientState) {
 				if op.Frag != nil {
 					fr = *op.Frag
 				}
-				src := NewSimSource(x.w, fmt.Sprintf("W%d.src", idx), input[pos:pos+n], plan.Source{Frag: fr}, nil)
+				src := NewSimSource(x.w, fmt.Sprintf("W%d.src", idx), input[pos:pos+n], plan.Source{Frag: fr, Faults: op.SrcFaults}, nil)
 				rn, err := zw.ReadFrom(src)
 				r.N, r.Err = rn, classify(err)
+				r.SrcFault = src.FaultPos >= 0
 				if rn > 0 && int(rn) <= n {
 					acc = input[pos : pos+int(rn)]
 					pos += int(rn)
